@@ -1,5 +1,6 @@
 import XpmVerif.Generated.FilterSrc
 import XpmVerif.Properties.C19
+import XpmVerif.Properties.C19Partial
 /-! C19 — source obligations.  `Generated/FilterSrc.lean` is rewritten on every run by
     `harness/xv/translate/filtersrc.py` from `cli/filter.py` (`JobInformation.state`, `VarExpr.get`,
     the `filter` methods, `LogicExpr.summary`), `cli/jobs.py` (`process()`: the decisions that lead to
@@ -179,6 +180,23 @@ theorem historySrc_safe (rx : Rx) (sc : String → String) (cs : List Cmd) (L : 
     (∀ j, j ∈ L.jobs → isFinished (stateSpec j) = false → (∃ x ∈ L.xps, j.key ∈ x.index) →
         j ∈ (runCmdsSrc rx sc L cs).jobs) := by
   rw [src_runCmds]; exact C19.history_safe rx sc cs L
+
+/-- `process()` as read from the source has no handler around the filter call: a filter that raises on a job aborts
+    the command (no entry enumerated after that job is touched); in particular the job is not kept in the selection. -/
+theorem src_filterRaise : filterRaiseSrc = RaisePolicy.abort := rfl
+
+/-- **safety half of the second sentence on workspaces where the filter cannot be evaluated on some job**, for the
+    regenerated policy: whatever `jobs clean` does there (abort included), a job directory that is gone was finished,
+    in scope, `--perform` was given and the filter has the three-valued meaning *true* on it. -/
+theorem cleanPSrc_removes_only_selected (rx : Rx) (L : HLayout) (o : CleanOpts) :
+    (cleanPSrc rx L o).2.xps = L.xps ∧
+    (∀ hj, hj ∈ (cleanPSrc rx L o).2.jobs → hj ∈ L.jobs) ∧
+    (∀ hj, hj ∈ L.jobs → hj ∉ (cleanPSrc rx L o).2.jobs →
+      o.perform = true ∧ inScope L.base o hj.job = true ∧ isFinished (stateSpec hj.job) = true ∧
+        (∀ e, o.filter = some e → evalK rx e (infoOf stateSpec hj.job) hj.hz = .t)) := by
+  unfold cleanPSrc
+  rw [src_filterRaise]
+  exact C19Partial.clean_removes_only_selected .abort (by decide) rx L o
 
 /-- non-vacuity: the regenerated commands on the concrete workspace of `Properties/C19.lean`. -/
 example : (cleanSrc (fun _ _ => false) C19.scOf C19.L0 { experiment := some "e1", perform := true }).map (·.jobs)
